@@ -391,20 +391,216 @@ Proof.
   apply Hcalls; auto.
 Qed.
 
+
+(* ---------- total graphs never take the early return of TransformedDStream._step ---------- *)
+Lemma cg_apply_defined op np x y : cg_apply op np (RRdd x) (RRdd y) <> RNone.
+Proof. simpl. discriminate. Qed.
+
+Lemma graph_total_defined g t srcv :
+  wf g -> graph_total g -> src_defined g srcv ->
+  forall n i nd, (i < n)%nat -> nth_error g i = Some nd -> node_total nd ->
+    nth i (denot g t srcv) RNone <> RNone.
+Proof.
+  intros Hwf Hgt Hsrc. induction n as [|n IH]; intros i nd Hi Hg Htot; [lia|].
+  rewrite (denot_eqn g t srcv i nd Hwf Hg).
+  assert (Hpar : forall p, In p (parents nd) -> nth p (denot g t srcv) RNone <> RNone).
+  { intros p Hp. destruct (Hgt i nd Hg p Hp) as [ndp [Hgp Htp]].
+    apply (IH p ndp); auto. pose proof (Hwf i nd Hg p Hp). lia. }
+  destruct nd as [k|f p|f p1 p2|op np p1 p2]; simpl in *.
+  - eapply Hsrc; eauto.
+  - specialize (Hpar p (or_introl eq_refl)).
+    destruct (nth p (denot g t srcv) RNone); [congruence|apply Htot].
+  - pose proof (Hpar p1 (or_introl eq_refl)). pose proof (Hpar p2 (or_intror (or_introl eq_refl))).
+    destruct (nth p1 (denot g t srcv) RNone); [congruence|].
+    destruct (nth p2 (denot g t srcv) RNone); [congruence|apply Htot].
+  - pose proof (Hpar p1 (or_introl eq_refl)). pose proof (Hpar p2 (or_intror (or_introl eq_refl))).
+    destruct (nth p1 (denot g t srcv) RNone); [congruence|].
+    destruct (nth p2 (denot g t srcv) RNone); [congruence|discriminate].
+Qed.
+
+Theorem graph_total_live g : wf g -> graph_total g -> always_live g.
+Proof.
+  intros Hwf Hgt t srcv Hsrc i f p Hg.
+  destruct (Hgt i _ Hg p (or_introl eq_refl)) as [ndp [Hgp Htp]].
+  apply (graph_total_defined g t srcv Hwf Hgt Hsrc (S p) p ndp); auto.
+Qed.
+
+(* ---------- the graphs of total programs are total ---------- *)
+Definition total_at (g : graph) (i : nat) : Prop := exists nd, nth_error g i = Some nd /\ node_total nd.
+
+Lemma total_at_app g new i : total_at g i -> total_at (g ++ new) i.
+Proof.
+  intros [nd [H Ht]]. exists nd. split; auto. rewrite nth_error_app1; auto. apply nth_error_Some; congruence.
+Qed.
+
+Lemma graph_total_app g new :
+  graph_total g ->
+  (forall j nd, nth_error new j = Some nd -> forall p, In p (parents nd) -> total_at (g ++ new) p) ->
+  graph_total (g ++ new).
+Proof.
+  intros Hg Hn i nd Hi p Hp.
+  destruct (Nat.lt_ge_cases i (length g)) as [Hl|Hl].
+  - rewrite nth_error_app1 in Hi by auto. apply total_at_app. exact (Hg i nd Hi p Hp).
+  - rewrite nth_error_app2 in Hi by auto. exact (Hn _ _ Hi p Hp).
+Qed.
+
+Lemma total_new g new j nd :
+  nth_error new j = Some nd -> node_total nd -> total_at (g ++ new) (length g + j).
+Proof.
+  intros H Ht. exists nd. split; auto. rewrite nth_error_app2 by lia.
+  replace (length g + j - length g)%nat with j by lia. exact H.
+Qed.
+
+Lemma total_new' g new i j nd :
+  i = (length g + j)%nat -> nth_error new j = Some nd -> node_total nd -> total_at (g ++ new) i.
+Proof. intros ->. apply total_new. Qed.
+
+Lemma lift1_total f p : node_total (Trans (lift1 f) p).
+Proof. simpl. intros; discriminate. Qed.
+Lemma lift2_total f p q : node_total (TransWith (lift2 f) p q).
+Proof. simpl. intros; discriminate. Qed.
+Lemma slice_total b e p : node_total (Trans (slice_fn b e) p).
+Proof. simpl. intros t x. unfold slice_fn. destruct ((b <=? t) && (t <=? e)); discriminate. Qed.
+
+Lemma chain_total g new (A : list nat) :
+  graph_total g -> (forall a, In a A -> total_at g a) ->
+  (forall j nd, nth_error new j = Some nd -> forall p, In p (parents nd) ->
+      In p A \/ exists j', p = (length g + j')%nat /\ (j' < j)%nat) ->
+  (forall j nd, nth_error new j = Some nd -> (S j < length new)%nat -> node_total nd) ->
+  graph_total (g ++ new).
+Proof.
+  intros Hg HA Hpar Htot. apply graph_total_app; auto.
+  intros j nd Hj p Hp. destruct (Hpar j nd Hj p Hp) as [Hin|[j' [-> Hlt]]].
+  - apply total_at_app. auto.
+  - assert (Hjl : (j < length new)%nat) by (apply nth_error_Some; congruence).
+    destruct (nth_error new j') as [nd'|] eqn:E.
+    + apply (total_new g new j' nd' E). apply (Htot j' nd' E). lia.
+    + apply nth_error_None in E. lia.
+Qed.
+
+Definition call_total_post (c : call) (g' : graph) (hs' : list nat) : Prop :=
+  graph_total g' /\ (is_action c = false -> total_at g' (last hs' O)).
+
+Ltac par_tac :=
+  let j := fresh "j" in let nd := fresh "nd" in let Hj := fresh "Hj" in let p := fresh "pp" in let Hp := fresh "Hpp" in
+  intros j nd Hj p Hp;
+  destruct j as [|[|[|j]]]; simpl in Hj; try (destruct j; discriminate); try discriminate;
+  inversion Hj; subst nd; simpl in Hp;
+  repeat (destruct Hp as [<-|Hp];
+          [ first [ left; simpl; auto; fail
+                  | right; exists 0%nat; split; lia
+                  | right; exists 1%nat; split; lia ] |]);
+  try destruct Hp.
+
+Ltac tot_tac :=
+  let j := fresh "j" in let nd := fresh "nd" in let Hj := fresh "Hj" in let Hl := fresh "Hl" in
+  intros j nd Hj Hl; simpl in Hl;
+  destruct j as [|[|[|j]]]; simpl in Hj; try lia; try discriminate;
+  inversion Hj; subst nd; apply lift1_total.
+
+Theorem expand_call_total c g hs :
+  graph_total g -> call_total c ->
+  (forall s, In s (call_args c) -> total_at g (nth s hs O)) ->
+  call_total_post c (fst (expand_call c (g, hs))) (snd (expand_call c (g, hs))).
+Proof.
+  intros Hgt Hct HA.
+  assert (HA' : forall a, In a (map (fun s => nth s hs O) (call_args c)) -> total_at g a).
+  { intros a Ha. apply in_map_iff in Ha as [s [<- Hs]]. auto. }
+  destruct c; cbn [expand_call call_args call_total is_action map] in *;
+    unfold ds_source, ds_map, ds_flatMap, ds_filter, ds_mapValues, ds_flatMapValues, ds_reduceByKey,
+      ds_groupByKey, ds_count, ds_countByValue, ds_reduce, ds_union, ds_cogrouped, ds_repartition,
+      ds_slice, ds_foreachRDD, ds_mapPartitions, ds_mapPartitionsWithIndex, ds_transformWith,
+      ds_transform, add_node; cbn [fst snd]; unfold call_total_post; rewrite last_last;
+    rewrite ?app_length; cbn [length]; rewrite <- ?app_assoc; cbn [app];
+    (split; [eapply chain_total; [exact Hgt|exact HA'|par_tac|tot_tac]|]);
+    intros Hact; try discriminate Hact.
+  all: try (first [ eapply (total_new' g _ _ 0%nat); [lia|reflexivity|]
+             | eapply (total_new' g _ _ 1%nat); [lia|reflexivity|]
+             | eapply (total_new' g _ _ 2%nat); [lia|reflexivity|] ];
+       first [exact I|apply lift1_total|apply lift2_total|apply slice_total|exact Hct]).
+Qed.
+
+
+
+Record TInv (p : list call) (g : graph) (hs : list nat) : Prop := {
+  ti_wf : wf g;
+  ti_h : handles_ok g hs;
+  ti_gt : graph_total g;
+  ti_len : (length hs <= length p)%nat;
+  ti_tot : forall k c, (k < length hs)%nat -> nth_error p k = Some c -> is_action c = false ->
+             total_at g (nth k hs O)
+}.
+
+Theorem expand_from_total p : prog_total p -> forall q pfx g hs,
+  p = pfx ++ q -> length hs = length pfx -> TInv p g hs -> prog_ok_from (length hs) q ->
+  graph_total (fst (expand_from q (g, hs))).
+Proof.
+  intros Hpt. induction q as [|c q IH]; intros pfx g hs Hp Hlen HI Hok.
+  - simpl. apply (ti_gt _ _ _ HI).
+  - destruct Hok as [Hargs Hok]. cbn [expand_from fold_left].
+    assert (Hc : nth_error p (length hs) = Some c).
+    { rewrite Hp, Hlen, nth_error_app2 by lia. rewrite Nat.sub_diag. reflexivity. }
+    destruct (Hpt _ _ Hc) as [Hct Hnoact].
+    assert (HA : forall s, In s (call_args c) -> total_at g (nth s hs O)).
+    { intros s Hs. pose proof (Hargs s Hs) as Hlt.
+      destruct (nth_error p s) as [c'|] eqn:Ec.
+      - apply (ti_tot _ _ _ HI s c'); auto. eapply Hnoact; eauto.
+      - apply nth_error_None in Ec. pose proof (ti_len _ _ _ HI). lia. }
+    pose proof (expand_call_total c g hs (ti_gt _ _ _ HI) Hct HA) as [Hgt1 Htot1].
+    pose proof (expand_call_post c g hs (ti_wf _ _ _ HI) (ti_h _ _ _ HI) Hargs) as Hpost.
+    destruct (expand_call c (g, hs)) as [g1 hs1]. cbn [fst snd] in *.
+    destruct Hpost as [[new Hg1] [Hwf1 [r [Hhs1 [Hr _]]]]].
+    fold (expand_from q (g1, hs1)).
+    assert (Hlen1 : length hs1 = S (length hs)) by (subst hs1; rewrite app_length; simpl; lia).
+    apply (IH (pfx ++ [c]) g1 hs1).
+    + rewrite Hp, <- app_assoc. reflexivity.
+    + rewrite Hlen1, app_length, Hlen. simpl. lia.
+    + constructor; auto.
+      * intros h Hin. subst hs1. apply in_app_or in Hin as [Hin|[<-|[]]]; auto.
+        pose proof (ti_h _ _ _ HI h Hin). subst g1. rewrite app_length; lia.
+      * rewrite Hlen1. apply nth_error_Some. congruence.
+      * intros k c' Hk Hck Hact. rewrite Hlen1 in Hk.
+        destruct (Nat.eq_dec k (length hs)) as [->|Hne].
+        -- assert (c' = c) by congruence. subst c'.
+           replace (nth (length hs) hs1 O) with (last hs1 O); auto.
+           subst hs1. rewrite last_last, app_nth2, Nat.sub_diag by lia. reflexivity.
+        -- subst hs1 g1. rewrite app_nth1 by lia. apply total_at_app.
+           apply (ti_tot _ _ _ HI k c'); auto. lia.
+    + rewrite Hlen1. exact Hok.
+Qed.
+
+Lemma graph_total_nil : graph_total [].
+Proof. intros i nd H. destruct i; discriminate. Qed.
+
+Theorem prog_total_live p : prog_ok p -> prog_total p -> always_live (fst (expand p)).
+Proof.
+  intros Hok Hpt. destruct (prog_sem p Hok) as [Hwf _].
+  apply graph_total_live; auto. unfold expand.
+  apply (expand_from_total p Hpt p [] [] []); auto.
+  constructor.
+  - apply wf_nil.
+  - intros h [].
+  - apply graph_total_nil.
+  - simpl; lia.
+  - simpl; intros; lia.
+Qed.
+
 (* per-batch op = RDD op: after the callback ran at time t on the graph of ANY program, the stream
    returned by every call holds the call's RDD-level meaning applied to what its argument streams
    hold in the same interval *)
 Theorem prog_tick p env t st :
-  prog_ok p -> let G := fst (expand p) in let hs := snd (expand p) in
+  prog_ok p -> prog_total p -> let G := fst (expand p) in let hs := snd (expand p) in
   length (ns st) = length G -> (forall i s, nth_error (ns st) i = Some s -> ctime s < t) ->
   exists st', tick G env t st = Some st' /\
     forall k c, nth_error p k = Some c ->
       crdd_at st' (nth k hs O) =
       call_sem c t (delivered G env st (nth k hs O)) (map (fun s => crdd_at st' (nth s hs O)) (call_args c)).
 Proof.
-  intros Hok G hs Hlen Hlt.
+  intros Hok Hpt G hs Hlen Hlt.
   destruct (prog_sem p Hok) as [Hwf [_ [_ Hsem]]]. fold G hs in Hwf, Hsem.
-  destruct (tick_inv G env t st Hwf Hlen Hlt) as [st' [E [_ [_ Hsol]]]].
+  assert (Hlive : live G t (delivered G env st))
+    by (apply (prog_total_live p Hok Hpt); apply delivered_defined; auto).
+  destruct (tick_inv G env t st Hwf Hlen Hlt Hlive) as [st' [E [_ [_ Hsol]]]].
   exists st'. split; auto. intros k c Hk.
   assert (Hs : solves G t (delivered G env st) (map crdd (ns st'))).
   { intros i nd Hi. rewrite <- crdd_at_map. apply Hsol; auto. }
@@ -560,20 +756,22 @@ Qed.
 (* every foreachRDD action of ANY program runs exactly once per interval, with the tick time and the
    RDD its stream holds in this interval *)
 Theorem action_once p env t st k s :
-  prog_ok p -> nth_error p k = Some (CForeachRDD s) ->
+  prog_ok p -> prog_total p -> nth_error p k = Some (CForeachRDD s) ->
   let G := fst (expand p) in let hs := snd (expand p) in
   length (ns st) = length G -> (forall i x, nth_error (ns st) i = Some x -> ctime x < t) ->
   exists st' evs, tick G env t st = Some st' /\ log st' = log st ++ evs /\
     fires (nth k hs O) evs = 1%nat /\
     forall tt args, In (EvFire (nth k hs O) tt args) evs -> tt = t /\ args = [crdd_at st' (nth s hs O)].
 Proof.
-  intros Hok Hk G hs Hlen Hlt.
+  intros Hok Hpt Hk G hs Hlen Hlt.
   destruct (prog_sem p Hok) as [Hwf _]. fold G in Hwf.
+  assert (Hlive : live G t (delivered G env st))
+    by (apply (prog_total_live p Hok Hpt); apply delivered_defined; auto).
   destruct (expand_from_action p [] [] wf_nil ltac:(intros h []) Hok k _ Hk) as [nd [Hnd [f Hf]]].
   assert (Hnd' : nth_error G (nth k hs O) = Some nd) by exact Hnd.
   assert (Hf' : nd = Trans f (nth s hs O)) by exact Hf.
   clear Hnd Hf. rename Hnd' into Hnd. subst nd.
-  destruct (tick_events G env t st Hwf Hlen Hlt) as [st' [evs [E [Hlog [_ [Hfires Hargs]]]]]].
+  destruct (tick_events G env t st Hwf Hlen Hlt Hlive) as [st' [evs [E [Hlog [_ [Hfires Hargs]]]]]].
   exists st', evs. split; auto. split; auto. split.
   - rewrite Hfires. unfold is_fn. rewrite Hnd. reflexivity.
   - intros tt args Hin. destruct (Hargs _ _ _ Hin) as [-> [nd' [Hnd' ->]]].
@@ -600,22 +798,23 @@ Proof.
 Qed.
 
 Theorem prog_hist p h t env :
-  prog_ok p -> let G := fst (expand p) in let hs := snd (expand p) in
+  prog_ok p -> prog_total p -> let G := fst (expand p) in let hs := snd (expand p) in
   increasing 0 (h ++ [(t, env)]) ->
   exists st st', run_hist G h (init G) = Some st /\ run_hist G (h ++ [(t, env)]) (init G) = Some st' /\
     forall k c, nth_error p k = Some c ->
       crdd_at st' (nth k hs O) =
       call_sem c t (delivered G env st (nth k hs O)) (map (fun s => crdd_at st' (nth s hs O)) (call_args c)).
 Proof.
-  intros Hok G hs Hinc.
+  intros Hok Hpt G hs Hinc.
   destruct (prog_sem p Hok) as [Hwf _]. fold G in Hwf.
+  pose proof (prog_total_live p Hok Hpt) as Hal. fold G in Hal.
   exists (spec_hist G h (init G)), (spec_hist G (h ++ [(t, env)]) (init G)).
   split; [apply run_hist_init; auto; eapply increasing_app_l; eauto|].
   split; [apply run_hist_init; auto|].
   assert (Hlen : length (ns (spec_hist G h (init G))) = length G) by (apply spec_hist_len, init_len).
   assert (Hlt : forall i s, nth_error (ns (spec_hist G h (init G))) i = Some s -> ctime s < t).
   { apply (spec_hist_times G h 0 (init G) t env); auto. apply init_time. }
-  destruct (prog_tick p env t _ Hok Hlen Hlt) as [st' [E Hsem]]. fold G hs in E, Hsem.
-  rewrite tick_refines in E by auto. inversion E; subst st'.
+  destruct (prog_tick p env t _ Hok Hpt Hlen Hlt) as [st' [E Hsem]]. fold G hs in E, Hsem.
+  rewrite tick_refines in E by (auto; apply Hal; apply delivered_defined; auto). inversion E; subst st'.
   rewrite spec_hist_snoc. exact Hsem.
 Qed.
